@@ -273,13 +273,13 @@ theorem NoIdleSlot_step (s s' : Sys) (l : Label) (h : NoIdleSlot s) (hc : CapInv
     simp only [step?] at hs
     split at hs
     · split at hs
-      · split at hs <;> cases hs <;> exact NoIdleSlot_of_eq h rfl rfl rfl rfl
+      · (repeat' split at hs) <;> cases hs <;> exact NoIdleSlot_of_eq h rfl rfl rfl rfl
       · rename_i mid k rest hm
         cases hs
         exact NoIdleSlot_of_eq (NoIdleSlot_take s _ rest h hm) rfl rfl rfl rfl
       · rename_i o rest hm
-        cases hs
-        exact NoIdleSlot_of_eq (NoIdleSlot_take s _ rest h hm) rfl rfl rfl rfl
+        split at hs <;> cases hs <;>
+          exact NoIdleSlot_of_eq (NoIdleSlot_take s _ rest h hm) rfl rfl rfl rfl
     · cases hs
   | _ =>
     simp only [step?, Sys.runStep] at hs
